@@ -19,10 +19,6 @@ def fpContext : List Nat := [
   0xe2990efed42fa25eaa4a51fb37e48b15  /- context/mod.rs::default#1 -/]
 
 def fpEval : List Nat := [
-  0xc03645396ca50f95f9962a0288f9aa5f  /- operator/mod.rs::value -/,
-  0x4447ac3d4754a7a812b69ba926402aaa  /- operator/mod.rs::variable_identifier_write -/,
-  0xa9b85c48eee00af48c70622cd9846b3b  /- operator/mod.rs::variable_identifier_read -/,
-  0x7a4dc35a1f801744072cdad7ca8e33d1  /- operator/mod.rs::function_identifier -/,
   0x7c39b0e7bee4514c8d602e1c90d47c07  /- value/mod.rs::is_string -/,
   0x80173e86a1a6339cad9f9f0801416ab8  /- value/mod.rs::is_int -/,
   0xf2dbfc474e616b9df2404b40b58982c7  /- value/mod.rs::is_float -/,
@@ -61,9 +57,6 @@ def fpIter : List Nat := [
 
 def fpLexer : List Nat := [
   0x999f815b671a456e7c00a81af5635337  /- token/mod.rs::char_to_partial_token -/,
-  0xdb6dc24219ae01bcfe0a7ba7bbcaddaf  /- token/mod.rs::is_leftsided_value -/,
-  0xe2127dd8123ed4e97084962f6a902ad3  /- token/mod.rs::is_rightsided_value -/,
-  0xffd7882aeb504a8ba3471c542ed9c1ce  /- token/mod.rs::is_assignment -/,
   0x9bf6ff653958e66a64d69840958201af  /- token/mod.rs::parse_escape_sequence -/,
   0xfff68f25fdc1427e9304dde828a3df7b  /- token/mod.rs::parse_string_literal -/,
   0x828c19689aaeb1b403f29cf549ec80e3  /- token/mod.rs::try_skip_comment -/,
@@ -81,19 +74,6 @@ def fpSerde : List Nat := [
   0x810573a19e6174000ab531bf1b7ee609  /- feature_serde/mod.rs::visit_str -/]
 
 def fpTree : List Nat := [
-  0x3ae99406fdf0291e0d589ab20e9a69ca  /- tree/mod.rs::new -/,
-  0x4c0ae7e4766580b93a0556bf39d9d625  /- tree/mod.rs::root_node -/,
-  0x72b9f880ab79b268aad6b6f42d25b035  /- tree/mod.rs::has_enough_children -/,
-  0xb7b9cd76f01545b6f05446f632d675c1  /- tree/mod.rs::has_too_many_children -/,
-  0xe595bf816ab1e74aec60a4cf3f7797bc  /- tree/mod.rs::insert_back_prioritized -/,
-  0x2d063d50e16a302bac9b06c39dc55efd  /- tree/mod.rs::collapse_root_stack_to -/,
-  0x35091ef92508e928fd0adf165a2b79b7  /- tree/mod.rs::collapse_all_sequences -/,
-  0x11de31602bc0fe6d2d77e6a9a3cc1e21  /- tree/mod.rs::tokens_to_operator_tree -/,
-  0x7213a498c069758bca82a3ca811f2df5  /- operator/mod.rs::precedence -/,
-  0x245848b3db996e07ca1bd9c05ff6e9f8  /- operator/mod.rs::is_left_to_right -/,
-  0x2dbbbba52e9451c45f34c6ba9467bc70  /- operator/mod.rs::is_sequence -/,
-  0x52511b3f3806df9a290d77251cb47bdc  /- operator/mod.rs::is_leaf -/,
-  0x3ddba8c8373bacd72b605a9c3cd58d2e  /- operator/mod.rs::max_argument_amount -/,
-  0xf897b44ff2d7e6cf94ef8d6712df37d8  /- operator/mod.rs::is_unary -/]
+]
 
 end Evalexpr.Spec.Fingerprints
